@@ -18,27 +18,41 @@ from harness.common.rng import Rng
 from harness.common import sim
 
 PROP = "C25"
-LEAN_MODULES = ["LunaVerif.Props.C25"]
+LEAN_MODULES = ["LunaVerif.Props.C25", "LunaVerif.Lemmas.C25Tx12", "LunaVerif.Lemmas.C25TxIo", "LunaVerif.Props.C25Tx"]
 DRIVER = "Driver/C25.lean"
 REQUIRED_THEOREMS = ["decode_encode", "no_seven_ones_on_wire", "stuff_error_detected", "never_drives_in_nondriving",
-                     "pulls_follow_requests"]
+                     "pulls_follow_requests",
+                     # cycle-level transmit chain (Model/Phy/FsTx.lean)
+                     "tx_pipeline_emits_encode", "each_byte_accepted_once", "packet12", "io_packet", "loopIo_split",
+                     "idle_stays_quiescent", "reset_quiescent", "no_ready_without_valid"]
 RULE = ("tx: packets of 1..70 random / all-ones / stuffing-boundary bytes, tx_data garbage between packets, random "
         "inter-packet gaps, the producer holds each byte until tx_ready; the D+/D- waveform is compared bit by bit "
-        "with the Lean `encode` and with an independent Python encoder.  rx: `encode` waveforms (and waveforms with a "
+        "with the Lean `encode` and with an independent Python encoder.  txc/txp: the cycle-level Lean model of the "
+        "transmit chain (`FsTx.step phase`, the function the theorems are about) against the real GatewarePHY (txc) and "
+        "the bare TxPipeline (txp, also fit_dat/fit_oe) usb_io cycle by usb_io cycle, for all four phases between the "
+        "usb clock and the bit-strobe counter; stimulus: handshake-obeying producer with random (also too short) gaps "
+        "and idle garbage, tx_valid toggling at random usb cycles, and inputs changing in arbitrary usb_io cycles.  "
+        "rx: `encode` waveforms (and waveforms with a "
         "seventh 1 inserted) resampled at 4x with sampling phase 0..3 (+fraction) and clock offsets 0, +-0.1%, "
         "+-0.25%, random idle gaps; delivered bytes compared with the Lean `decode`.  glue: random op_mode / "
         "tx_valid / term_select / pull-down requests every 12 MHz cycle")
 ASSUMPTIONS = [
-    "the UTMI producer keeps tx_valid and the byte stable until tx_ready and drops tx_valid after the last tx_ready",
-    "usb (12 MHz) is usb_io (48 MHz) divided by 4, edge aligned",
+    "the UTMI producer keeps tx_valid and the byte stable until tx_ready and drops tx_valid after the last tx_ready "
+    "(theorems: the closed loop with `Prod`; tx_data arbitrary while tx_valid is low)",
+    "usb (12 MHz) is usb_io (48 MHz) divided by 4, edge aligned; the phase between the usb edge and the PHY's "
+    "bit-strobe counter is constant (theorems and co-simulation cover all four phases)",
+    "a packet starts with the transmit path quiescent: tx_valid low from reset to the first usb cycle boundary, and "
+    "low for at least five bit times after the last data bit of the previous packet (i.e. until its EOP is out); "
+    "TxPipeline only looks at tx_valid when its shifter runs empty, a shorter gap merges two packets",
     "received packets are separated by at least 4 bit times of idle (J)",
 ]
-PARTIAL = ("Theorems cover the line code itself (decode_encode, no_seven_ones_on_wire, stuff_error_detected) and the "
-           "op-mode / pull-up / pull-down glue.  NOT in a theorem (co-simulation only): that the cycle-level TxPipeline "
-           "emits exactly `encode bytes` and accepts each byte once (tx_pipeline_emits_encode, each_byte_accepted_once), "
-           "and the receive chain incl. the 48 MHz clock/data recovery under sampling phase and +-0.25% drift "
-           "(runtime timing).  The run of 1s is counted over data bits only (the 1 ending SYNC is not counted), as in "
-           "the gateware; differs from USB 2.0 7.1.9 only for a first byte with six low 1 bits (no PID).")
+PARTIAL = ("Transmit direction fully in theorems over the cycle-level model that is co-simulated against the gateware "
+           "(tx_pipeline_emits_encode, each_byte_accepted_once, for all byte lists, all four clock phases, any number of "
+           "packets), as are the line code (decode_encode, no_seven_ones_on_wire, stuff_error_detected) and the op-mode / "
+           "pull-up / pull-down glue.  NOT in a theorem (co-simulation only): the receive chain "
+           "(RxNRZIDecoder/RxPacketDetect/RxBitstuffRemover/RxShifter have no cycle-level Lean model; the bytes they "
+           "deliver are compared with the Lean `decode`), incl. the 48 MHz clock/data recovery under sampling phase and "
+           "+-0.25% drift (runtime timing).")
 
 SE0, J, K = 0, 1, 2
 
